@@ -52,7 +52,7 @@ inductive Out (α : Type) where
   | panic
   | oom
   | fuel
-  deriving Repr
+  deriving Repr, DecidableEq
 
 namespace Out
 def bind {α β : Type} : Out α → (α → Out β) → Out β
@@ -741,6 +741,7 @@ inductive CompileRes (ρ : Type) where
   | ok (r : ρ)
   | bad          -- the engine rejects the expression
   | unsupported  -- a reference engine declines (never returned by a real engine)
+  deriving DecidableEq
 
 /-- onig, as used by grok.rs: `Regex::new`, `foreach_name` (group names), `captures` (leftmost
     search; per named group the text of the first group of that name, `none` if it did not
